@@ -1,11 +1,13 @@
 import EinxModel.Driver.IR
 import EinxModel.Denote.Fun
+import EinxModel.Denote.Fun2
 open Lean Einx.Driver Einx.IR Einx.Denote
 
 /-! Driver for the functional denotation (`Denote/Fun.lean`).
 
-kind `denote_fun`: solved concatenation-free operation → the symbolic result of the functional form, the
-symbolic result of the loop form (`Denote.denoteId` / `Denote.denoteElementwise`), whether they are equal
+kind `denote_fun`: solved operation (id: concatenations allowed; elementwise, reduce, dot: concatenation-free) →
+the symbolic result of the functional form, the symbolic result of the loop form (`Denote.denoteId` /
+`Denote.denoteElementwise` / `Denote.denoteReduce` / `Denote.denoteDot`), whether they are equal
 cell by cell, and -- when integer inputs are supplied -- the functional form evaluated on them. -/
 namespace Einx.Driver.Denote
 
@@ -18,7 +20,22 @@ def tensorsBeq : List (Tensor Cell) → List (Tensor Cell) → Bool
 
 def funOf (family op : String) (exprsIn exprsOut : List Expr) : Except String (Option (List (Tensor Cell))) := do
   match family with
-  | "id" => pure (some (← denoteIdFun exprsIn exprsOut))
+  | "id" =>
+    if Expr.concatFreeL exprsIn && Expr.concatFreeL exprsOut then pure (some (← denoteIdFun exprsIn exprsOut))
+    else
+      -- concatenations: the general functional form (`Denote/Fun2.lean`, proved equal to the loop form in
+      -- `Proofs/DenoteConcat.lean`)
+      match denoteIdFunG exprsIn exprsOut with
+      | some ts => pure (some ts)
+      | none => throw "id (general functional form): undefined"
+  | "reduce" =>
+    match exprsIn, exprsOut with
+    | [i], [o] => pure (some [← denoteReduceFun op i o])
+    | _, _ => throw "reduce: one input and one output expected"
+  | "dot" =>
+    match exprsOut with
+    | [o] => pure (some [← denoteDotFun exprsIn o])
+    | _ => throw "dot: one output expected"
   | "elementwise" =>
     match exprsOut with
     | [o] => pure (some [← denoteElementwiseFun op exprsIn o])
@@ -55,7 +72,7 @@ def handle (j : Json) : R Json := do
       pure (Json.mkObj [("concat_free", Json.bool cf), ("fun", Json.str ("err: " ++ e)), ("loop", Json.str ("err: " ++ e')), ("agree", Json.bool (!cf || true))])
     | .error e, .ok (some _) =>
       -- the functional form only covers concatenation-free operations
-      pure (Json.mkObj [("concat_free", Json.bool cf), ("fun", Json.str ("err: " ++ e)), ("loop", Json.str "ok"), ("agree", Json.bool (!cf))])
+      pure (Json.mkObj [("concat_free", Json.bool cf), ("fun", Json.str ("err: " ++ e)), ("loop", Json.str "ok"), ("agree", Json.bool (!cf && family != "id"))])
     | .ok (some _), .error e' =>
       pure (Json.mkObj [("concat_free", Json.bool cf), ("fun", Json.str "ok"), ("loop", Json.str ("err: " ++ e')), ("agree", Json.bool false)])
   | k => throw s!"unknown kind {k}"
